@@ -207,6 +207,12 @@ def check(run: Run) -> None:
         from . import c12
         R.share(run, "C08.h", c12, ["C12.n"])
 
+    with run.obligation("C08.i", "K7", "a feedback written inside a keyed child (map_) is delivered one step later even when the delivery cycle is busy with OTHER keys: the owner records "
+                        "the next wake-up of every child it evaluated (not only of the ones it skipped), so the input-event fast path of the next cycle still visits the child "
+                        "whose feedback source is due (shared with C09.d)"):
+        from . import c09
+        R.share(run, "C08.i", c09, ["C09.d"])
+
 
 VARIANTS = [
     {"id": "b-sink-requires-all-valid", "expect": "C08.b", "edits": [{"file": FB, "find": "        node_schema.valid_inputs  = std::vector<std::size_t>{0};", "replace": "        node_schema.valid_inputs  = std::vector<std::size_t>{0};\n        node_schema.all_valid_inputs = std::vector<std::size_t>{0};"}]},
